@@ -564,32 +564,52 @@ theorem benhamLoop_error (votes : Profile) : ∀ (f : Nat) (cur : Profile) (e : 
           have h3 := (eliminateOne_ok hel).1
           omega
 
-/-- **Benham fills the one seat** with a candidate of the profile or one reported tie of at least two of its
-    candidates, whenever it answers.  FULL statement (one seat is all the evaluator is anchored for). -/
-theorem benham_shape {p : Profile} (_h1 : 1 ≤ (allRankedCandidates p).length) {r : List Slot}
-    (h : benham p = .ok r) : SelShape (allRankedCandidates p) 1 r :=
-  benhamLoop_shape p _ p r (fun _ h => h) h
+theorem lone_or_not (p : Profile) : (∃ c, allRankedCandidates p = [c]) ∨ ∀ c, allRankedCandidates p ≠ [c] := by
+  by_cases h : ∃ c, allRankedCandidates p = [c]
+  · exact Or.inl h
+  · exact Or.inr (fun c hc => h ⟨c, hc⟩)
 
-/- Full statement (FALSE of the current code, `benham_refusals_witness`; open findings C05-benham-elimination-tie-crash,
-   C05-benham-single-candidate-crash):
+/-- **Benham fills the one seat** with a candidate of the profile or one reported tie of at least two of its
+    candidates, whenever it answers — a lone candidate included (fix 1230cf6).  FULL statement (one seat is all the
+    evaluator is anchored for). -/
+theorem benham_shape {p : Profile} (_h1 : 1 ≤ (allRankedCandidates p).length) {r : List Slot}
+    (h : benham p = .ok r) : SelShape (allRankedCandidates p) 1 r := by
+  rcases lone_or_not p with ⟨c, hc⟩ | hnl
+  · rw [benham_lone hc] at h
+    injection h with h; subst h
+    rw [hc]
+    exact selShape_map_cand (l := [c]) rfl (by simp) (fun x hx => hx)
+  · rw [benham_of_not_lone hnl] at h
+    exact benhamLoop_shape p _ p r (fun _ h => h) h
+
+/-- a lone candidate is elected (fixed finding C05-benham-single-candidate-crash) -/
+theorem benham_lone_elected {p : Profile} {c : Cand} (h : allRankedCandidates p = [c]) : benham p = .ok [Slot.cand c] :=
+  benham_lone h
+
+/- Full statement (FALSE of the current code, `benham_refusals_witness`; open finding C05-benham-elimination-tie-crash):
      theorem benham_refusals : 1 ≤ (allRankedCandidates p).length → benham p = .error e →
        e = .votingSystemError ∨ e = .notImplemented -/
 
 /-- **Benham, refusals (partial).**  The evaluator declares no refusal; the one error value it produces is the
-    IndexError of `get_n_best` over an empty table, reached when an elimination tie (or a single candidate) leaves no
-    candidate.  The loop always ends within its bound (the candidate set shrinks every round). -/
-theorem benham_refusals_partial {p : Profile} {e : Err} (h : benham p = .error e) : e = .other "IndexError" :=
-  benhamLoop_error p _ p e (by omega) h
+    IndexError of `get_n_best` over an empty table, reached when an elimination tie leaves no candidate; it needs at
+    least two candidates (a lone candidate is elected).  The loop always ends within its bound (the candidate set
+    shrinks every round). -/
+theorem benham_refusals_partial {p : Profile} {e : Err} (h : benham p = .error e) :
+    e = .other "IndexError" ∧ ∀ c, allRankedCandidates p ≠ [c] := by
+  rcases lone_or_not p with ⟨c, hc⟩ | hnl
+  · rw [benham_lone hc] at h; cases h
+  · rw [benham_of_not_lone hnl] at h
+    exact ⟨benhamLoop_error p _ p e (by omega) h, hnl⟩
 
 theorem benham_refusals_witness :
     1 ≤ (allRankedCandidates C05.exCycleProfile).length ∧
-      benham C05.exCycleProfile = .error (.other "IndexError") ∧
-    1 ≤ (allRankedCandidates [([.one 0], (5 : Rat))]).length ∧
-      benham [([.one 0], 5)] = .error (.other "IndexError") := by decide +kernel
+      benham C05.exCycleProfile = .error (.other "IndexError") := by decide +kernel
 
 example : 1 ≤ (allRankedCandidates C05.exProfile).length ∧ benham C05.exProfile = .ok [Slot.cand 1] := by
   decide +kernel
 example : benham [([.one 0, .one 1], 1), ([.one 1, .one 0], 1)] = .ok [Slot.tie [0, 1]] := by decide +kernel
+/-- (fixed by 1230cf6) a single candidate takes the seat -/
+example : benham [([.one 0], 5)] = .ok [Slot.cand 0] := by decide +kernel
 
 /-- **Tideman alternative fills the one seat with a candidate of the profile**, whenever it answers (never a tie:
     a tied tier ends in KeyError, see `tideman_refusals_partial`).  FULL statement. -/
@@ -634,26 +654,36 @@ theorem tidemanTier_error (smith : Bool) : ∀ (f : Nat) (rv : Profile) (e : Err
           have h4 := length_allRanked_subsetProfile_le rv (smithSchwartz (rankedToCondorcet rv) smith)
           omega
 
+/-- the tier as a whole: a lone candidate wins it; otherwise the only error is the IndexError of an elimination tie -/
+theorem tidemanRunTier_error (smith : Bool) (f : Nat) (rv : Profile) (e : Err) (hne : rv ≠ [])
+    (hf : (allRankedCandidates rv).length < f) (h : tidemanRunTier smith f rv = .error e) : e = .other "IndexError" := by
+  rcases lone_or_not rv with ⟨c, hc⟩ | hnl
+  · unfold tidemanRunTier at h; rw [hc] at h; cases h
+  · rw [tidemanRunTier_of_not_lone hnl] at h
+    exact tidemanTier_error smith f rv e hne hf h
+
 /- Full statement (FALSE of the current code, `tideman_refusals_witness`; open findings C05-tideman-elimination-tie-crash,
-   C05-tideman-tie-keyerror, C05-tideman-single-candidate-crash):
+   C05-tideman-tie-keyerror):
      theorem tideman_refusals : 1 ≤ (allRankedCandidates p).length → tideman smith p = .error e →
        e = .votingSystemError ∨ e = .notImplemented -/
 
 /-- **Tideman alternative, refusals (partial).**  With at least one candidate the declared NotImplementedError (no
     votes) is never raised and the tier loop always ends within its bound; the error values that do occur are the
-    IndexError of `get_n_best` over an empty table (elimination tie, single candidate) and the KeyError of
-    `eligible_set.remove(Tie)` (tied last elimination). -/
+    IndexError of `get_n_best` over an empty table (elimination tie) and the KeyError of `eligible_set.remove(Tie)`
+    (tied last elimination); both need at least two candidates (a lone candidate is seated, fix bddde61). -/
 theorem tideman_refusals_partial {smith : Bool} {p : Profile} (h1 : 1 ≤ (allRankedCandidates p).length) {e : Err}
-    (h : tideman smith p = .error e) : e = .other "IndexError" ∨ e = .other "KeyError" := by
+    (h : tideman smith p = .error e) :
+    (e = .other "IndexError" ∨ e = .other "KeyError") ∧ ∀ c, allRankedCandidates p ≠ [c] := by
   have hne : p ≠ [] := by
     rintro rfl
     rw [allRanked_nil] at h1
     simp at h1
+  refine ⟨?_, fun c hc => by rw [tideman_lone hc] at h; cases h⟩
   unfold tideman at h
   split at h
   · rename_i e' ht
     simp only [Except.error.injEq] at h; subst h
-    exact Or.inl (tidemanTier_error smith _ p _ hne (by omega) ht)
+    exact Or.inl (tidemanRunTier_error smith _ p _ hne (by omega) ht)
   · split at h
     · simp at h
     · simp only [Except.error.injEq] at h; exact Or.inr h.symm
@@ -668,12 +698,163 @@ theorem tideman_refusals_witness :
       tideman true C05.exCycleProfile = .error (.other "IndexError") ∧
       tideman false C05.exCycleProfile = .error (.other "IndexError") ∧
     1 ≤ (allRankedCandidates [([.one 0, .one 1], (1 : Rat)), ([.one 1, .one 0], 1)]).length ∧
-      tideman true [([.one 0, .one 1], 1), ([.one 1, .one 0], 1)] = .error (.other "KeyError") ∧
-    1 ≤ (allRankedCandidates [([.one 0], (5 : Rat))]).length ∧
-      tideman true [([.one 0], 5)] = .error (.other "IndexError") := by decide +kernel
+      tideman true [([.one 0, .one 1], 1), ([.one 1, .one 0], 1)] = .error (.other "KeyError") := by decide +kernel
 
 example : 1 ≤ (allRankedCandidates C05.exProfile).length ∧ tideman true C05.exProfile = .ok [Slot.cand 1] ∧
     tideman false C05.exProfile = .ok [Slot.cand 1] := by decide +kernel
+/-- (fixed by bddde61) a single candidate takes the seat -/
+example : tideman true [([.one 0], 5)] = .ok [Slot.cand 0] := by decide +kernel
+
+/-! #### Tideman alternative for `n` seats (`tidemanN`, after fixes 33df8fe / bddde61: one tier per seat) -/
+
+theorem eraseCand_eq_erase (l : List Cand) (c : Cand) : eraseCand l c = l.erase c := by
+  induction l with
+  | nil => rfl
+  | cons x xs ih =>
+    unfold eraseCand
+    by_cases h : x = c
+    · subst h; simp
+    · rw [if_neg h, ih, List.erase_cons_tail (by simpa using h)]
+
+/-- invariant of the seat loop: the winners so far `cs` and the still eligible candidates partition the candidates -/
+structure TLInv (cands : List Cand) (n : Nat) (eligible cs : List Cand) : Prop where
+  nd_e : eligible.Nodup
+  nd_c : cs.Nodup
+  disj : ∀ c ∈ cs, c ∉ eligible
+  sub_e : ∀ c ∈ eligible, c ∈ cands
+  sub_c : ∀ c ∈ cs, c ∈ cands
+  total : cs.length + eligible.length = cands.length
+  short : cs.length < n
+  fits : n ≤ cands.length
+
+theorem tidemanLoop_shape (smith : Bool) (tf : Nat) (cands : List Cand) (n : Nat) :
+    ∀ (f : Nat) (tier : Profile) (eligible cs : List Cand) (r : List Slot), TLInv cands n eligible cs →
+      tidemanLoop smith tf f tier eligible (cs.map Slot.cand) n = .ok r → SelShape cands n r := by
+  intro f
+  induction f with
+  | zero => intro tier eligible cs r _ h; simp [tidemanLoop] at h
+  | succ f ih =>
+    intro tier eligible cs r hinv h
+    unfold tidemanLoop at h
+    split at h
+    · simp at h
+    · simp at h
+    · rename_i c _
+      split at h
+      · simp at h
+      · rename_i hcon
+        have hce : c ∈ eligible := by simpa using hcon
+        have hcs : c ∉ cs := fun hm => hinv.disj c hm hce
+        have hacc : cs.map Slot.cand ++ [Slot.cand c] = (cs ++ [c]).map Slot.cand := by simp
+        have hlen_e : (eraseCand eligible c).length + 1 = eligible.length := by
+          rw [eraseCand_eq_erase, List.length_erase_of_mem hce]
+          have := List.length_pos_of_mem hce
+          omega
+        have hnd' : (cs ++ [c]).Nodup := by
+          refine List.nodup_append.mpr ⟨hinv.nd_c, by simp, ?_⟩
+          intro a ha b hb hab
+          simp only [List.mem_singleton] at hb
+          subst hb; subst hab; exact hcs ha
+        have hsub' : ∀ x ∈ cs ++ [c], x ∈ cands := by
+          intro x hx
+          rcases List.mem_append.mp hx with hx | hx
+          · exact hinv.sub_c x hx
+          · simp only [List.mem_singleton] at hx; subst hx; exact hinv.sub_e _ hce
+        have hlen' : (cs ++ [c]).length = cs.length + 1 := by simp
+        have htot := hinv.total
+        have hshort := hinv.short
+        have hfits := hinv.fits
+        simp only at h
+        split at h
+        · rename_i hstop
+          simp only [Except.ok.injEq] at h; subst h
+          rw [hacc]
+          refine selShape_map_cand ?_ hnd' hsub'
+          simp only [Bool.or_eq_true, decide_eq_true_eq, List.isEmpty_iff] at hstop
+          rcases hstop with hstop | hstop
+          · rw [hacc, List.length_map] at hstop; exact hstop
+          · rw [hstop] at hlen_e
+            simp only [List.length_nil] at hlen_e
+            omega
+        · rename_i hgo
+          simp only [Bool.or_eq_true, decide_eq_true_eq, List.isEmpty_iff, not_or] at hgo
+          rw [hacc] at h hgo
+          rw [List.length_map] at hgo
+          refine ih _ _ (cs ++ [c]) r ?_ h
+          refine ⟨?_, hnd', ?_, ?_, hsub', by omega, by omega, hfits⟩
+          · rw [eraseCand_eq_erase]; exact hinv.nd_e.erase c
+          · intro x hx hxe
+            rw [eraseCand_eq_erase] at hxe
+            have hxe' := (hinv.nd_e.mem_erase_iff.mp hxe)
+            rcases List.mem_append.mp hx with hx | hx
+            · exact hinv.disj x hx hxe'.2
+            · simp only [List.mem_singleton] at hx; exact hxe'.1 hx
+          · intro x hx
+            rw [eraseCand_eq_erase] at hx
+            exact hinv.sub_e x (List.mem_of_mem_erase hx)
+
+/-- **Tideman alternative for `n` seats** (`1 ≤ n ≤ #candidates`): whenever it answers, exactly `n` distinct candidates
+    of the profile, never a tie object (a tied tier or an elimination tie ends in KeyError / IndexError: open
+    findings).  FULL shape statement. -/
+theorem tidemanN_shape {smith : Bool} {p : Profile} {n : Nat} (h1 : 1 ≤ n) (hn : n ≤ (allRankedCandidates p).length)
+    {r : List Slot} (h : tidemanN smith p n = .ok r) : SelShape (allRankedCandidates p) n r := by
+  unfold tidemanN at h
+  exact tidemanLoop_shape smith _ (allRankedCandidates p) n _ p (allRankedCandidates p) [] r
+    ⟨nodup_allRanked p, List.nodup_nil, by simp, fun _ h => h, by simp, by simp, (by simp only [List.length_nil]; omega), hn⟩ h
+
+theorem tidemanLoop_error (smith : Bool) (tf n : Nat) :
+    ∀ (f : Nat) (tier : Profile) (eligible : List Cand) (acc : List Slot) (e : Err), tier ≠ [] →
+      (allRankedCandidates tier).length < tf → eligible.length < f →
+      tidemanLoop smith tf f tier eligible acc n = .error e → e = .other "IndexError" ∨ e = .other "KeyError" := by
+  intro f
+  induction f with
+  | zero => intro tier eligible acc e _ _ hf; omega
+  | succ f ih =>
+    intro tier eligible acc e hne htf hf h
+    unfold tidemanLoop at h
+    split at h
+    · rename_i e' ht
+      simp only [Except.error.injEq] at h; subst h
+      exact Or.inl (tidemanRunTier_error smith tf tier _ hne htf ht)
+    · simp only [Except.error.injEq] at h; exact Or.inr h.symm
+    · rename_i c _
+      split at h
+      · simp only [Except.error.injEq] at h; exact Or.inr h.symm
+      · rename_i hcon
+        have hce : c ∈ eligible := by simpa using hcon
+        simp only at h
+        split at h
+        · cases h
+        · refine ih _ _ _ e (subsetProfile_ne_nil _ hne) ?_ ?_ h
+          · have := length_allRanked_subsetProfile_le tier (eraseCand eligible c)
+            omega
+          · rw [eraseCand_eq_erase, List.length_erase_of_mem hce]
+            have := List.length_pos_of_mem hce
+            omega
+
+/- Full statement (FALSE of the current code, `tidemanN_refusals_witness`; open findings C05-tideman-elimination-tie-crash,
+   C05-tideman-tie-keyerror):
+     theorem tidemanN_refusals : 1 ≤ (allRankedCandidates p).length → tidemanN smith p n = .error e →
+       e = .votingSystemError ∨ e = .notImplemented -/
+
+/-- **Tideman alternative for `n` seats, refusals (partial)**: with at least one candidate neither loop exhausts its
+    bound and the declared NotImplementedError is never raised; what does occur is the IndexError of an elimination
+    tie and the KeyError of a tied tier. -/
+theorem tidemanN_refusals_partial {smith : Bool} {p : Profile} {n : Nat} (h1 : 1 ≤ (allRankedCandidates p).length)
+    {e : Err} (h : tidemanN smith p n = .error e) : e = .other "IndexError" ∨ e = .other "KeyError" := by
+  have hne : p ≠ [] := by
+    rintro rfl
+    rw [allRanked_nil] at h1
+    simp at h1
+  unfold tidemanN at h
+  exact tidemanLoop_error smith _ n _ p _ [] e hne (by omega) (by omega) h
+
+theorem tidemanN_refusals_witness :
+    tidemanN true C05.exCycleProfile 2 = .error (.other "IndexError") ∧
+    tidemanN true [([.one 0, .one 1, .one 2], (1 : Rat)), ([.one 0, .one 2, .one 1], 1)] 2 = .error (.other "KeyError") := by
+  decide +kernel
+
+example : tidemanN true C05.exProfile 2 = .ok [Slot.cand 1, Slot.cand 0] := by decide +kernel
 
 end VL.C08
 
